@@ -2,11 +2,11 @@
 """seed_summary.py — (re)write seeded/SUMMARY.md from seeded/*/meta.json"""
 import glob, json, os
 rows = []
-for mp in sorted(glob.glob("/verif/seeded/*/meta.json")) + sorted(glob.glob("/verif/seeded/*/round2/meta.json")):
+for mp in sorted(glob.glob("/verif/seeded/*/meta.json")) + sorted(glob.glob("/verif/seeded/*/round[0-9]/meta.json")):
     m = json.load(open(mp))
     pid = os.path.basename(os.path.dirname(mp))
-    if pid == "round2":
-        pid = os.path.basename(os.path.dirname(os.path.dirname(mp))) + " (round 2)"
+    if pid.startswith("round"):
+        pid = os.path.basename(os.path.dirname(os.path.dirname(mp))) + " (round %s)" % pid[5:]
     ev = m.get("evaluation", {})
     rows.append((pid, (m.get("summary") or "")[:160].replace("\n", " ").replace("|", "/"), ", ".join(m.get("files_touched", []))[:80],
                  "yes" if m.get("tests_passed") else str(m.get("tests_passed")),
@@ -14,7 +14,7 @@ for mp in sorted(glob.glob("/verif/seeded/*/meta.json")) + sorted(glob.glob("/ve
                  (ev.get("violation_lines") or [""])[-1][:140].replace("|", "/"), m.get("followup", "")))
 with open("/verif/seeded/SUMMARY.md", "w") as f:
     f.write("# Independently seeded breaking changes\n\nOne fresh sub-agent per property and round, given only the property text and a scratch "
-            "worktree of /repo (round 2: also the summary of the round-1 change, to be avoided); it had to make a change under include/ that compiles, keeps the existing tests green and breaks the "
+            "worktree of /repo (rounds 2 and 3: also the summaries of the earlier changes, to be avoided; round 3, for C07 / C14 / C15 / C18 / C19 only, ran on the tree after the late repairs); it had to make a change under include/ that compiles, keeps the existing tests green and breaks the "
             "property, and to demonstrate it. `tools/seed_eval.py` applied each patch to /repo, ran the property's quick check "
             "(seeds 1..3 until caught), and undid it.\n\n| id | change (agent's summary) | files | tests green | quick check | what it reported | follow-up |\n|---|---|---|---|---|---|---|\n")
     for r in sorted(rows):
